@@ -69,7 +69,11 @@ inline void parse_label(const std::string &label, std::string &name, std::vector
 template <typename Model>
 struct Walker {
     Graph &g;
+    std::set<long> skip;   // case numbers that crashed in an earlier run of the same walk
     long   pruned{0}, edges_run{0}, labels_run{0}, mismatches{0}, skipped{0}, states_reached{0}, distinct_edges{0};
+    int                             cur_state{-1};
+    const std::string              *cur_label{nullptr};
+    const std::vector<std::string> *cur_path{nullptr};
     explicit Walker(Graph &gr) : g(gr) {}
 
     void run(const char *tag) {
@@ -89,7 +93,18 @@ struct Walker {
             int s = stack[head++];  // breadth first: shortest replay paths
             ++states_reached;
             for (auto &kv : g.out[s]) {
-                begin_case(case_no++);
+                long cn = case_no++;
+                if (skip.count(cn)) { ++skipped; continue; }
+                begin_case(cn);
+                {
+                    std::string d = "path=";
+                    for (auto &l : path[s]) d += l + ";";
+                    d += " action=" + kv.first;
+                    snprintf(g_desc, sizeof(g_desc), "%s", d.c_str());
+                }
+                cur_state = s;
+                cur_label = &kv.first;
+                cur_path  = &path[s];
                 Model m;
                 m.reset();
                 bool ok = true;
